@@ -426,7 +426,7 @@ func (p *parser) parseLiteral() Node {
 		p.advance()
 		val, err := strconv.ParseFloat(tok.Literal, 64)
 		if err != nil {
-			p.appendError(err.Error())
+			p.appendErrorForToken(err.Error(), tok)
 			return nil
 		}
 		return &NumLiteral{token: tok, Value: val}
